@@ -415,6 +415,7 @@ func TestVerifC06ManagerHistory(t *testing.T) {
 		next := 0
 		var hist []string
 		sawShared, sawNUMA, sawReleaseAfterShare, sawRequired := false, false, false, false
+		sawRealloc, sawPeek := false, false
 		dead := false // set when a case is abandoned on a known finding: remaining actions become no-ops
 
 		check := func(where string) bool {
@@ -627,6 +628,140 @@ func TestVerifC06ManagerHistory(t *testing.T) {
 					}
 				}
 			},
+			// an already placed pod gets a new allocation (Update replaces the old one; nothing of the old may stay charged)
+			"reallocate": func(t *rapid.T) {
+				if dead {
+					return
+				}
+				if len(live) == 0 {
+					t.Skip("no live pod")
+				}
+				uid := rapid.SampledFrom(c06SortedUIDs(live)).Draw(t, "uid")
+				cpuBind := rapid.Bool().Draw(t, "cpuBind")
+				n := rapid.IntRange(1, len(all)).Draw(t, "need")
+				req := corev1.ResourceList{corev1.ResourceCPU: *resource.NewMilliQuantity(int64(n)*1000, resource.DecimalSI)}
+				if !cpuBind {
+					req[corev1.ResourceCPU] = *resource.NewMilliQuantity(rapid.Int64Range(1, int64(len(all))*1000).Draw(t, "milli"), resource.DecimalSI)
+				}
+				if rapid.Bool().Draw(t, "wantMem") {
+					req[corev1.ResourceMemory] = *resource.NewQuantity(rapid.Int64Range(0, memPerNode*int64(topo.NumNodes)+1).Draw(t, "mem"), resource.BinarySI)
+				}
+				var hint []int
+				for i := 0; i < topo.NumNodes; i++ {
+					if rapid.Bool().Draw(t, "hintBit") {
+						hint = append(hint, i)
+					}
+				}
+				if len(hint) == 0 && !cpuBind {
+					hint = []int{rapid.IntRange(0, topo.NumNodes-1).Draw(t, "hintOne")}
+				}
+				opts := &ResourceOptions{numCPUsNeeded: n, requestCPUBind: cpuBind, requests: req.DeepCopy(), originalRequests: req.DeepCopy(),
+					cpuBindPolicy: schedulingconfig.CPUBindPolicyDefault, topologyOptions: tom.GetTopologyOptions(nodeName)}
+				if !cpuBind {
+					opts.numCPUsNeeded = 0
+				}
+				if len(hint) > 0 {
+					opts.hint = topologymanager.NUMATopologyHint{NUMANodeAffinity: c06Mask(hint)}
+				}
+				pod := &corev1.Pod{}
+				pod.UID, pod.Name, pod.Namespace = uid, string(uid), "default"
+				a, st := rm.Allocate(node, pod, opts)
+				if !st.IsSuccess() {
+					hist = append(hist, fmt.Sprintf("reallocate %s cpuBind=%v n=%d hint=%v req=%v -> refused", uid, cpuBind, n, hint, c06RLOne(req)))
+					return
+				}
+				rm.Update(nodeName, a)
+				live[uid] = a
+				sawRealloc = true
+				hist = append(hist, fmt.Sprintf("reallocate %s cpuBind=%v n=%d hint=%v req=%v -> %v", uid, cpuBind, n, hint, c06RLOne(req), c06AllocStr(a)))
+			},
+			// a scheduling attempt that is evaluated but not carried out (filter / preemption dry run): asks which CPUs would be
+			// available if the given reservation-restored and preemptible CPUs were handed back; it must not change the ledger
+			"peekAvailable": func(t *rapid.T) {
+				if dead {
+					return
+				}
+				var held []int
+				ref := map[int]int{}
+				for _, a := range live {
+					for _, id := range a.CPUSet.ToSliceNoSort() {
+						ref[id]++
+					}
+				}
+				for _, id := range all {
+					if ref[id] > 0 {
+						held = append(held, id)
+					}
+				}
+				pick := func(label string) cpuset.CPUSet {
+					if len(held) == 0 || rapid.IntRange(0, 2).Draw(t, label+"Empty") == 0 {
+						return cpuset.NewCPUSet()
+					}
+					return cpuset.NewCPUSet(c06Subset(t, held, label)...)
+				}
+				preferred, preemptible := pick("preferred"), pick("preemptible")
+				var got cpuset.CPUSet
+				var err error
+				viaAllocate := rapid.Bool().Draw(t, "viaAllocate")
+				if viaAllocate {
+					n := rapid.IntRange(1, len(all)).Draw(t, "need")
+					req := corev1.ResourceList{corev1.ResourceCPU: *resource.NewMilliQuantity(int64(n)*1000, resource.DecimalSI)}
+					opts := &ResourceOptions{numCPUsNeeded: n, requestCPUBind: true, requests: req.DeepCopy(), originalRequests: req.DeepCopy(),
+						cpuBindPolicy: schedulingconfig.CPUBindPolicyDefault, topologyOptions: tom.GetTopologyOptions(nodeName),
+						preferredCPUs: preferred, preemptibleCPUs: preemptible}
+					pod := &corev1.Pod{}
+					pod.UID, pod.Name, pod.Namespace = "dry", "dry", "default"
+					a, st := rm.Allocate(node, pod, opts)
+					hist = append(hist, fmt.Sprintf("dryRunAllocate n=%d preferred=%s preemptible=%s -> %v (not committed)", n, preferred, preemptible, st.IsSuccess()))
+					if st.IsSuccess() {
+						got = a.CPUSet
+						// every CPU handed out must have been free or handed back by one of the two sets
+						for _, id := range got.ToSliceNoSort() {
+							back := 0
+							if preferred.Contains(id) {
+								back++
+							}
+							if preemptible.Contains(id) {
+								back++
+							}
+							if reserved.Contains(id) || ref[id]-back >= maxRef {
+								dead = true
+								c.Violation(t, "history:dry-run-took-held-cpu", "dry-run allocation got cpu %d (holders %d, handed back %d times, limit %d, reserved=%v); history=%v", id, ref[id], back, maxRef, reserved.Contains(id), hist)
+								return
+							}
+						}
+					}
+					sawPeek = sawPeek || !preemptible.IsEmpty() || !preferred.IsEmpty()
+					return
+				}
+				got, _, err = rm.GetAvailableCPUs(nodeName, preferred, preemptible)
+				hist = append(hist, fmt.Sprintf("peekAvailable preferred=%s preemptible=%s -> %s", preferred, preemptible, got))
+				if err != nil {
+					dead = true
+					c.Violation(t, "history:getavailable-error", "%v", err)
+					return
+				}
+				for _, id := range all {
+					back := 0
+					if preferred.Contains(id) {
+						back++
+					}
+					if preemptible.Contains(id) {
+						back++
+					}
+					eff := ref[id] - back
+					if eff < 0 {
+						eff = 0
+					}
+					want := !reserved.Contains(id) && eff < maxRef
+					if got.Contains(id) != want {
+						dead = true
+						c.Violation(t, "history:peek-available-mismatch", "cpu %d: available=%v, expected %v (holders %d, handed back %d, limit %d); history=%v", id, got.Contains(id), want, ref[id], back, maxRef, hist)
+						return
+					}
+				}
+				sawPeek = sawPeek || !preemptible.IsEmpty() || !preferred.IsEmpty()
+			},
 			"updateAgain": func(t *rapid.T) {
 				if dead {
 					return
@@ -670,6 +805,8 @@ func TestVerifC06ManagerHistory(t *testing.T) {
 		c.ClassIf(sawRequired, "required-policy-success")
 		c.ClassIf(sawReleaseAfterShare, "release-after-sharing")
 		c.ClassIf(maxRef > 1, "maxref2")
+		c.ClassIf(sawRealloc, "pod-reallocated")
+		c.ClassIf(sawPeek, "dry-run-with-restored-or-preemptible-cpus")
 		if len(hist) >= 3 && (sawNUMA || sawShared) {
 			c.NonTrivial(hist)
 		}
